@@ -187,36 +187,42 @@ package introspection
 // that the generated __Type/__Field/... resolvers call hand out exactly that text - every character of it, outer
 // whitespace included - and null only for the empty description.
 //@ func (*EnumValue).Description [C16]
+//@   replay descriptionVerbatim.go.tmpl
 //@   requires f != nil
 //@   safe
 //@   modifies nothing
 //@   ensures f.description == "" ==> res0 == nil
 //@   ensures f.description != "" ==> res0 != nil && deref(res0) == f.description
 //@ func (*Field).Description [C16]
+//@   replay descriptionVerbatim.go.tmpl
 //@   requires f != nil
 //@   safe
 //@   modifies nothing
 //@   ensures f.description == "" ==> res0 == nil
 //@   ensures f.description != "" ==> res0 != nil && deref(res0) == f.description
 //@ func (*InputValue).Description [C16]
+//@   replay descriptionVerbatim.go.tmpl
 //@   requires f != nil
 //@   safe
 //@   modifies nothing
 //@   ensures f.description == "" ==> res0 == nil
 //@   ensures f.description != "" ==> res0 != nil && deref(res0) == f.description
 //@ func (*Directive).Description [C16]
+//@   replay descriptionVerbatim.go.tmpl
 //@   requires f != nil
 //@   safe
 //@   modifies nothing
 //@   ensures f.description == "" ==> res0 == nil
 //@   ensures f.description != "" ==> res0 != nil && deref(res0) == f.description
 //@ func (*Schema).Description [C16]
+//@   replay descriptionVerbatim.go.tmpl
 //@   requires s != nil && s.schema != nil
 //@   safe
 //@   modifies nothing
 //@   ensures s.schema.Description == "" ==> res0 == nil
 //@   ensures s.schema.Description != "" ==> res0 != nil && deref(res0) == s.schema.Description
 //@ func (*Type).Description [C16]
+//@   replay descriptionVerbatim.go.tmpl
 //@   requires t != nil
 //@   safe
 //@   modifies nothing
